@@ -328,6 +328,8 @@ func fpEvents(prop string, sh fpShape, tier string) []hEvent {
 					_ = baseInv
 					if !genOK {
 						tag += ":generates_missing"
+					} else if sh.generates && sh.method == "timestamp" {
+						tag += ":output_exists" // the generated file exists (and is newer than the sources)
 					}
 					if t, ok := m.Taint[key]; ok {
 						tag = t
@@ -351,7 +353,8 @@ func fpEvents(prop string, sh fpShape, tier string) []hEvent {
 				m.Attempts[key] = "killed"
 			case started:
 				m.Attempts[key] = "failed"
-			case inv.name == "run-declined":
+			case inv.name == "run-declined" && rc == 205:
+				// (a prompt comes after the up-to-date check: an up-to-date task is skipped without asking)
 				m.Attempts[key] = "declined"
 			}
 			return out
